@@ -554,6 +554,9 @@ func (s *scn) allCallersBack() bool {
 
 func (s *scn) run() {
 	s.startRun()
+	// let Run() get going before the environment acts (a Shutdown() that overtakes Run()'s first
+	// statement would stop every registered runnable; that ordering is outside the model)
+	s.rec.WaitQuiescent(3 * time.Second)
 	steps := 6 + s.r.Intn(18)
 	phase := "startup"
 	trigAt := steps * 2 / 3
